@@ -432,7 +432,7 @@ func (ev *evidence) finish(p *propDef, d time.Duration, exit int) {
 		"ssa_instructions_executed":       ev.Steps,
 		"queries": map[string]interface{}{
 			"z3_sat": gstats.Sat, "z3_unsat": gstats.Unsat, "z3_unknown": gstats.Unknown, "solver_errors": gstats.Errors,
-			"escalated": gstats.Escalated, "escalated_sat": gstats.EscSat, "escalated_unsat": gstats.EscUnsat, "escalated_unknown": gstats.EscUnk,
+			"escalated": gstats.Escalated, "feasibility_unknown_decided_in_integer_mode": gstats.IntRescued, "escalated_sat": gstats.EscSat, "escalated_unsat": gstats.EscUnsat, "escalated_unknown": gstats.EscUnk,
 			"cross_checked_with_cvc5": gstats.CrossChecked, "cross_solver_disagreements": gstats.CrossDiffs,
 		},
 		"solver_s":       round1(float64(gstats.Nanos) / 1e9),
